@@ -173,3 +173,14 @@ _m("C09",
    "rate x dt between consecutive rows from the second row on.  Non-trivial: >= 2 chained rules, a rate case, or a "
    "schedule case with reaction events between rows.",
    _COMMON + ["how often a dt rule runs at the initial instant is not asserted (the property excludes it)"])
+
+_m("C14",
+   "Hypothesis builds models over every propensity type, reaction orders 0..4 with repeats, named and numeric "
+   "parameters, optional delay blocks, general rates over + - * / ^ exp log abs min max (no t / volume / Heaviside); "
+   "the model is written with write_sbml_model in the deterministic or the stochastic flavour, the file is read back "
+   "with libsbml only, and for every reaction: document stoichiometries must equal the multiplicities; every "
+   "identifier of the kinetic law must be a species, a global parameter or a local parameter of the document; the "
+   "kinetic-law AST, evaluated by our own interpreter at 2..5 states (non-negative reals; integers incl. 0, 1, 2 for "
+   "the stochastic export), must equal the model's own rate (py_get_propensity / stochastic probe) to 1e-9.  "
+   "Non-trivial: a non-mass-action reaction or an order >= 2 reaction with a repeated reactant.",
+   _COMMON + ["bioscrape's annotations are ignored by construction (libsbml + own AST interpreter)"])
